@@ -588,6 +588,23 @@ def cases(rng, tier):
             ip, va, fl = rng.choice(GRID)
             yield ("c03_init", [["s", a + "/" + mask_text(rng, ov, m)], ip, _ver(va, ver), fl], "mask_otherfamily")
 
+    # ---- the longest spellings: six four-digit groups and a dotted quad (45 characters) on both sides of the '/', up to 91 characters
+    # in all -- a length bound computed from the 39-character all-hextet form would refuse them
+    def long6(v):
+        return ":".join("%04x" % ((v >> (112 - 16 * i)) & 0xffff) for i in range(6)) + ":" + print4(v & 0xffffffff)
+    for _ in range(60 if quick else 1500):
+        v = rng.choice([rng.getrandbits(128), (1 << 128) - 1 - rng.getrandbits(20), rng.getrandbits(128) | 0x64646464, 0xffff00000000 | rng.getrandbits(32)])
+        p = rng.randrange(129)
+        ip, va, fl = rng.choice(GRID)
+        k = rng.random()
+        if k < 0.45:
+            t = long6((1 << 128) - (1 << (128 - p)))          # netmask
+        elif k < 0.8 and 0 < p < 128:
+            t = long6((1 << (128 - p)) - 1)                   # hostmask
+        else:
+            t = "%d" % p
+        yield ("c03_init", [["s", long6(v) + "/" + t], ip, _ver(va, 6), fl], "long_v6")
+
     # ---- malformed / unusual address parts (C01's spellings and their edits), bare and with a prefix
     s4, s6 = _c01.seeds()
     for fam, ss, alpha in ((4, s4, _c01.ALPHA4), (6, s6, _c01.ALPHA6)):
